@@ -107,6 +107,12 @@ func (e *Exec) execInstr(f *Frame, b *ssa.BasicBlock, ins ssa.Instruction, st *S
 		}
 		f.vals[x] = Val{T: x.Type(), Term: r}
 		e.refTyped(f.vals[x])
+		if f == e.rootFrame && x.Comment != "" && x.Heap {
+			// a local variable living in a cell (captured by a closure, or address taken): cur(name) reads the cell
+			if _, ok := e.localAddrs[x.Comment]; !ok {
+				e.localAddrs[x.Comment] = f.vals[x]
+			}
+		}
 	case *ssa.FieldAddr:
 		p := e.val(f, x.X)
 		a := e.addrOf(p)
@@ -305,6 +311,15 @@ func (e *Exec) execInstr(f *Frame, b *ssa.BasicBlock, ins ssa.Instruction, st *S
 				e.comp(st, vn, e.compSort[vn])
 			}
 			e.setComp(st, vn, e.compSort[vn], fmt.Sprintf("((as const (Array %s Bool)) false)", e.reg.sortOf(mt.Key())))
+			// ghost: number of completed iterations, and the length of the map when the iteration started
+			in := e.itersName(f, x)
+			e.compSort[in] = "Int"
+			if _, ok := e.compInit[in]; !ok {
+				e.comp(st, in, "Int")
+			}
+			e.setComp(st, in, "Int", "0")
+			ri.len0 = e.define(f.prefix+x.Name()+"_len0", "Int", e.mapLen(st, mt, xv.Term))
+			f.rangeOf[x] = ri
 		}
 	case *ssa.Next:
 		e.execNext(f, x, st, reach)
@@ -329,6 +344,10 @@ func (e *Exec) execInstr(f *Frame, b *ssa.BasicBlock, ins ssa.Instruction, st *S
 func fieldName(x *ssa.FieldAddr) string {
 	st := unalias(deref(x.X.Type())).Underlying().(*types.Struct)
 	return st.Field(x.Field).Name()
+}
+
+func (e *Exec) itersName(f *Frame, r *ssa.Range) string {
+	return fmt.Sprintf("ITERS_%s%s", f.prefix, r.Name())
 }
 
 func (e *Exec) visitedName(f *Frame, r *ssa.Range) string {
@@ -608,12 +627,23 @@ func (e *Exec) execNext(f *Frame, x *ssa.Next, st *State, reach Term) {
 	v := Val{T: mt.Elem(), Term: e.define(name+"_v", e.reg.sortOf(mt.Elem()), e.mapGet(st, mt, ri.x.Term, k.Term))}
 	e.refBound(st, v)
 	e.setComp(st, vn, e.compSort[vn], Ite(okv.Term, Store(vis, k.Term, "true"), vis))
+	// iteration count: 0 <= iters <= len0 while running; on exhaustion of an unmodified map iters == len0
+	in := e.itersName(f, rng)
+	its := e.comp(st, in, "Int")
+	if ri.len0 != "" && ri.dom0 != "" {
+		dn, ds, _, _ := e.mapNames(mt)
+		e.assume(app(">=", its, "0"), "")
+		e.assume(Implies(okv.Term, app("<", its, ri.len0)), "an unvisited key remains: fewer than len iterations so far")
+		e.assume(Implies(And(Not(okv.Term), Eq(Select(e.comp(st, dn, ds), ri.x.Term), ri.dom0)), Eq(its, ri.len0)), "range over an unmodified map runs len(map) times")
+	}
+	e.setComp(st, in, "Int", Ite(okv.Term, app("+", its, "1"), its))
 	f.vals[x] = Val{T: x.Type(), Tup: []Val{okv, k, v}}
 	// loop binders: remember key/value for contracts
 	f.vals[rng] = Val{T: rng.Type(), Term: "0", Tup: []Val{k, v}}
 	if f == e.rootFrame && f.ctr != nil {
 		if li := f.loops[x.Block()]; li != nil {
 			e.loopVisited[li.ordinal] = vn
+			e.loopIters[li.ordinal] = in
 			names := f.ctr.Binds[li.ordinal]
 			if len(names) > 0 && names[0] != "_" {
 				e.rootBinders[names[0]] = k
